@@ -71,7 +71,7 @@ def cmd_run(prop, tier, runs=None, budget=None, quiet=False):
                 prop, h['seed'], h['signature'], h['detail']))
             if h.get('plan') is not None:
                 p = core.REPLAY_DIR / ('harness-%s-%s.json' % (prop, h['seed']))
-                core.REPLAY_DIR.mkdir(exist_ok=True)
+                core.REPLAY_DIR.mkdir(exist_ok=True, parents=True)
                 p.write_text(core.cjson({'property': prop, 'engine': h.get('engine', engine_name),
                                          'tier': tier, 'plan': h['plan'],
                                          'signature': h['signature']}))
